@@ -209,7 +209,7 @@ fn scan_and_connect(
     let (head, tail, gap, c) = scan_both_ways(table, w, start);
 
     #[cfg(rust_dsymbols_verif)]
-    crate::verif::emit(format!(
+    crate::verif::emit_with(|| format!(
         "{{\"ev\":\"scan\",\"w\":{:?},\"r\":{},\"head\":{},\"tail\":{},\"gap\":{},\"c\":{}}}",
         w.iter().collect::<Vec<_>>(), start, head, tail, gap, c
     ));
@@ -246,7 +246,7 @@ pub fn coset_table(
 
                 table.join(i, n, g);
                 #[cfg(rust_dsymbols_verif)]
-                crate::verif::emit(format!(
+                crate::verif::emit_with(|| format!(
                     "{{\"ev\":\"define\",\"r\":{},\"g\":{},\"n\":{}}}", i, g, n
                 ));
                 for w in &rels {
@@ -285,7 +285,7 @@ pub fn coset_table(
     #[cfg(rust_dsymbols_verif)]
     {
         let result = table.compact();
-        crate::verif::emit(format!(
+        crate::verif::emit_with(|| format!(
             "{{\"ev\":\"return\",\"table\":{:?}}}",
             (0..result.len()).map(|r| result.all_gens().iter()
                 .map(|&g| result.get(r, g).map(|x| x as isize).unwrap_or(-1))
@@ -448,7 +448,7 @@ fn potential_children(
         let limit = max_rows.min(table.len() + 1);
         for pos in k..limit {
             #[cfg(rust_dsymbols_verif)]
-            crate::verif::emit(format!(
+            crate::verif::emit_with(|| format!(
                 "{{\"ev\":\"derive\",\"gens\":{},\"table\":{:?},\"from\":{},\"to\":{},\"g\":{},\"out\":{}}}",
                 table.nr_gens(), verif_rows(table), k, pos, g,
                 derived_table(table, expanded_rels, k, pos, g)
